@@ -76,23 +76,34 @@ class Custom2005(exc.JsonRpcError):
     message = 'custom error 2005'
 
 
+class Custom2006(exc.JsonRpcError):
+    code = 2006
+    message = 'custom error 2006'
+
+
+class Custom2006Refined(Custom2006):
+    """a typed error that INHERITS its code and only refines the message: it is a registration for that code like any other
+    (the class a raised Custom2006Refined reaches the caller as)"""
+    message = 'refined error 2006'
+
+
 # the harness' own model of the global registry (not read from pjrpc)
 GLOBAL: Dict[int, Type[exc.JsonRpcError]] = {
     -32700: exc.ParseError, -32600: exc.InvalidRequestError, -32601: exc.MethodNotFoundError,
     -32602: exc.InvalidParamsError, -32603: exc.InternalError, -32000: exc.ServerError,
-    2001: Custom2001, 2002: Custom2002, 2003: Custom2003, 2004: Custom2004, 2005: Custom2005, -32050: SrvRange, 3001: IndepA, 0: ZeroCode, 5000: CodedBase,
+    2001: Custom2001, 2002: Custom2002, 2003: Custom2003, 2004: Custom2004, 2005: Custom2005, 2006: Custom2006Refined, -32050: SrvRange, 3001: IndepA, 0: ZeroCode, 5000: CodedBase,
 }
 
 BY_NAME: Dict[str, Type[exc.JsonRpcError]] = {
     'JsonRpcError': exc.JsonRpcError, 'ParseError': exc.ParseError, 'InvalidRequestError': exc.InvalidRequestError,
     'MethodNotFoundError': exc.MethodNotFoundError, 'InvalidParamsError': exc.InvalidParamsError,
     'InternalError': exc.InternalError, 'ServerError': exc.ServerError, 'Custom2001': Custom2001, 'Custom2002': Custom2002,
-    'Custom2003': Custom2003, 'Custom2004': Custom2004, 'Custom2005': Custom2005, 'SrvRange': SrvRange, 'PlainBase': PlainBase, 'CodedBase': CodedBase, 'IndepBase': IndepBase,
+    'Custom2003': Custom2003, 'Custom2004': Custom2004, 'Custom2005': Custom2005, 'Custom2006Refined': Custom2006Refined, 'SrvRange': SrvRange, 'PlainBase': PlainBase, 'CodedBase': CodedBase, 'IndepBase': IndepBase,
     'IndepA': IndepA, 'ZeroCode': ZeroCode,
 }
 
 TYPED = ['ParseError', 'InvalidRequestError', 'MethodNotFoundError', 'InvalidParamsError', 'InternalError', 'ServerError',
-         'Custom2001', 'Custom2002', 'Custom2003', 'Custom2004', 'Custom2005', 'SrvRange', 'IndepA', 'ZeroCode']
+         'Custom2001', 'Custom2002', 'Custom2003', 'Custom2004', 'Custom2005', 'Custom2006Refined', 'SrvRange', 'IndepA', 'ZeroCode']
 REGISTERED_CODES = sorted(GLOBAL)
 
 
